@@ -351,6 +351,12 @@ def run(ctx):
     before = all(g.reaches(a, b, exc=False) for a in pv.site_nodes[ins[0]] for s in upd for b in pv.site_nodes[s])
     ctx.instance("C13.duplicate-store", "persist_msg[INSERT before UPDATE]", before,
                  "the counter UPDATE is not preceded by the INSERT: a duplicate number moves the counter before failing", loc(ins[0].call))
+    # every message handed to persist_msg is inserted: no content-dependent skip in front of the INSERT
+    ins_nodes = set(pv.site_nodes[ins[0]])
+    skip = g.witness_path(g.entry, [g.exit], avoid=ins_nodes, exc=False)
+    ctx.instance("C13.duplicate-store", "persist_msg[INSERT on every path]", skip is None,
+                 "a normal path through persist_msg returns without inserting the message: frames of some kind (e.g. PossDup copies) are silently not journaled, "
+                 "so a later resend of their range finds nothing to replay", loc(pv.fn), g.describe(skip or [])[-6:])
     handlers = [h for n in walk_no_nested(pv.fn) if isinstance(n, ast.Try) for h in n.handlers]
     ok = bool(handlers)
     for h in handlers:
